@@ -68,7 +68,11 @@ def make_source(mode, fmt, transparency, size, variant):
 
 
 def orient(image, orientation):
-    """What `rotate_pillow_image` does (Pillow operations only) -> (image, changed)."""
+    """The REFERENCE for `image-orientation` (css-images-3 §6.2), in Pillow operations -> (image, changed):
+    the image is rotated to the RIGHT by the angle, then flipped horizontally.  Pillow's `ROTATE_n` turns
+    counter-clockwise, so a clockwise turn by `angle` is `ROTATE_{360 - angle}`.  This is a statement of
+    the specification, not a copy of `rotate_pillow_image` (which agrees with it since repair e4e2f8c): the
+    decoded pixels of the embedded stream are compared with it."""
     from PIL import Image, ImageOps
     if orientation == 'from-image':
         if 'exif' in image.info:
@@ -80,7 +84,9 @@ def orient(image, orientation):
     angle, flip = orientation
     changed = False
     if angle > 0:
-        image = image.transpose(getattr(Image.Transpose, f'ROTATE_{angle}'))
+        clockwise = {90: Image.Transpose.ROTATE_270, 180: Image.Transpose.ROTATE_180,
+                     270: Image.Transpose.ROTATE_90}[angle]
+        image = image.transpose(clockwise)
         changed = True
     if flip:
         image = image.transpose(Image.Transpose.FLIP_LEFT_RIGHT)
@@ -242,11 +248,97 @@ def finding_grey16():
     return out.startswith('err') or (out.split()[1] == 'I;16' and out.split()[5] == '/DeviceRGB')
 
 
-def finding_unwritable_mode():
-    """Known finding: a CMYK TIFF (a mode Pillow cannot write as PNG) makes the image loader raise OSError
-    instead of embedding the image or degrading gracefully."""
-    data = make_source('CMYK', 'TIFF', False, (2, 2), 0)
-    return call_embed(data, False, None, 'none').startswith('err')
+def regression_unwritable_mode():
+    """Fixed finding unwritable-mode-crash (d7dc388): a CMYK TIFF / PA / F image (modes Pillow cannot write as
+    PNG) made the image loader raise OSError.  -> list of regression cases (same protocol as `case_embed`)."""
+    cases = []
+    for mode, fmt in (('CMYK', 'TIFF'), ('PA', 'TIFF'), ('F', 'TIFF')):
+        meta = {'fn': 'RasterImage', 'source': [mode, fmt, False, [2, 2], 0], 'orientation': 'none',
+                'earlier': None, 'optimize': False, 'jpeg_quality': None, 'regression': 'unwritable-mode-crash'}
+        line, out = replay_embed(meta)
+        cases.append((line, out, meta, True, ['regression:unwritable-mode-crash']))
+    return cases
+
+
+# ---------------------------------------------------------------------------------------------
+# RasterImage._get_png_data: the chunk walk that extracts the IDAT payload
+
+CHUNK_TYPES = (b'IDAT', b'IDAT', b'IDAT', b'IHDR', b'IEND', b'tEXt', b'PLTE', b'tRNS', b'idat', b'IDAT', b'pHYs')
+PNG_SIGNATURE = b'\x89PNG\r\n\x1a\n'
+
+
+class _WrittenFile:
+    """What `_get_png_data` needs of a Pillow image: `save(file, format='PNG')` writes these bytes."""
+
+    def __init__(self, data):
+        self.data = data
+
+    def save(self, image_file, format=None):
+        assert format == 'PNG'
+        image_file.write(self.data)
+
+
+def gen_png_chunks(rng, adversarial):
+    chunks = []
+    for _ in range(rng.choice([0, 1, 2, 3, 4, 5, 6])):
+        kind = rng.choice(CHUNK_TYPES)
+        data = bytes(rng.randrange(256) for _ in range(rng.choice([0, 0, 1, 2, 3, 5, 9])))
+        crc = bytes(rng.randrange(256) for _ in range(4))
+        chunks.append((kind, data, crc))
+    return chunks
+
+
+def encode_chunks(chunks):
+    return b''.join(struct.pack('!I', len(data)) + kind + data + crc for kind, data, crc in chunks)
+
+
+def run_png_data(file_bytes):
+    from weasyprint.images import RasterImage
+    out = docs.outcome(lambda: 'ok (' + ' '.join(str(b) for b in RasterImage._get_png_data(_WrittenFile(file_bytes))) + ')')
+    return sx.line('pngdata', list(file_bytes)), out
+
+
+def case_png_data(rng, adversarial=False):
+    """The real `RasterImage._get_png_data` on a file made of the PNG signature and random chunks (any types,
+    several / empty IDATs, ancillary chunks in between); adversarial: a truncated or over-long tail, a length
+    field that runs past the end of the file."""
+    chunks = gen_png_chunks(rng, adversarial)
+    data = PNG_SIGNATURE + encode_chunks(chunks)
+    shape = 'wellformed'
+    if adversarial:
+        k = rng.random()
+        if k < 0.35:
+            data, shape = data[:rng.randrange(len(data) + 1)], 'truncated'
+        elif k < 0.55:
+            data, shape = data + bytes(rng.randrange(256) for _ in range(rng.choice([1, 2, 3, 5]))), 'garbage-tail'
+        elif k < 0.75:
+            # a length field larger than what is left
+            data += struct.pack('!I', rng.choice([50, 2 ** 31, 2 ** 32 - 1])) + rng.choice(CHUNK_TYPES) + b'\x01\x02'
+            shape = 'length-overrun'
+    line, out = run_png_data(data)
+    idats = sum(1 for kind, _, _ in chunks if kind == b'IDAT')
+    meta = {'fn': '_get_png_data', 'file': list(data), 'shape': shape,
+            'chunks': [[kind.decode('latin1'), list(d), list(c)] for kind, d, c in chunks] if shape == 'wellformed'
+            else None}
+    return line, out, meta, idats > 1 or shape != 'wellformed', [f'pngdata:{shape}', f'pngdata:idat{min(idats, 3)}'] + (
+        ['pngdata:' + out] if out.startswith('err') else [])
+
+
+def real_png_streams(rng):
+    """`_get_png_data` on a real Pillow image (Pillow's own writer: IHDR, IDAT…, IEND, sometimes PLTE / tRNS) ->
+    (line, out, meta): the protocol line carries the bytes of the file Pillow wrote."""
+    import io
+    from PIL import Image
+    mode = rng.choice(['L', 'LA', 'RGB', 'RGBA', 'P', '1'])
+    image = Image.new(mode, (rng.choice([1, 2, 5, 9]), rng.choice([1, 3, 4])))
+    for y in range(image.height):
+        for x in range(image.width):
+            image.putpixel((x, y), rng.randrange(2) if mode in ('1',) else rng.randrange(256) if mode in ('L', 'P')
+                           else tuple(rng.randrange(256) for _ in image.getbands()))
+    buf = io.BytesIO()
+    image.save(buf, format='PNG')
+    line, out = run_png_data(buf.getvalue())
+    return line, out, {'fn': '_get_png_data', 'file': list(buf.getvalue()), 'shape': 'pillow', 'chunks': None}
 
 
 # ---------------------------------------------------------------------------------------------
@@ -261,14 +353,9 @@ def grid_image(rows):
     return image
 
 
-def case_orientation(rng, adversarial=False):
-    """The real `rotate_pillow_image` on a tiny greyscale image whose pixels are all different."""
+def run_orientation(rows, orientation):
+    """The real `rotate_pillow_image` on a greyscale pixel grid -> (line, out, meta)."""
     from weasyprint.images import rotate_pillow_image
-    w, h = rng.choice([1, 2, 3]), rng.choice([1, 2, 3])
-    values = rng.sample(range(1, 250), w * h)
-    rows = [values[y * w:(y + 1) * w] for y in range(h)]
-    orientation = rng.choice(['none', 'from-image', (0, False), (0, True), (90, False), (90, True), (180, False),
-                              (180, True), (270, False), (270, True)])
 
     def run():
         source = grid_image(rows)
@@ -279,8 +366,19 @@ def case_orientation(rng, adversarial=False):
     out = docs.outcome(run)
     kind, angle, flip = (orientation, 0, False) if isinstance(orientation, str) else ('turn', *orientation)
     line = sx.line('orient', kind, angle, flip, rows)
-    return (line, out, {'fn': 'rotate_pillow_image', 'rows': rows, 'orientation': orientation},
-            not isinstance(orientation, str), [f'orient:{kind}:{angle}:{str(flip).lower()}'])
+    return line, out, {'fn': 'rotate_pillow_image', 'rows': rows, 'orientation': orientation}
+
+
+def case_orientation(rng, adversarial=False):
+    """The real `rotate_pillow_image` on a tiny greyscale image whose pixels are all different."""
+    w, h = rng.choice([1, 2, 3]), rng.choice([1, 2, 3])
+    values = rng.sample(range(1, 250), w * h)
+    rows = [values[y * w:(y + 1) * w] for y in range(h)]
+    orientation = rng.choice(['none', 'from-image', (0, False), (0, True), (90, False), (90, True), (180, False),
+                              (180, True), (270, False), (270, True)])
+    line, out, meta = run_orientation(rows, orientation)
+    kind, angle, flip = (orientation, 0, False) if isinstance(orientation, str) else ('turn', *orientation)
+    return (line, out, meta, not isinstance(orientation, str), [f'orient:{kind}:{angle}:{str(flip).lower()}'])
 
 
 def case_orientation_angle(rng, adversarial=False):
@@ -299,9 +397,12 @@ def case_orientation_angle(rng, adversarial=False):
         f'orientangle:{(round(degrees / 90) % 4) * 90}']
 
 
-def finding_orientation_ccw():
-    """Known finding: `image-orientation: 90deg` turns the image to the left (Pillow ROTATE_90 is
-    counter-clockwise) where css-images-3 says to the right."""
-    from weasyprint.images import rotate_pillow_image
-    result = rotate_pillow_image(grid_image([[10, 20]]), (90, False))
-    return result.size == (1, 2) and result.getpixel((0, 0)) == 20
+def regression_orientation_ccw():
+    """Fixed finding image-orientation-rotates-ccw (e4e2f8c): `image-orientation: 90deg` turned the image to
+    the left.  -> regression cases on the input of the former witness ([A B], 90deg and 270deg)."""
+    cases = []
+    for orientation in ((90, False), (270, False), (90, True)):
+        line, out, meta = run_orientation([[10, 20]], orientation)
+        meta['regression'] = 'image-orientation-rotates-ccw'
+        cases.append((line, out, meta, True, ['regression:image-orientation-rotates-ccw']))
+    return cases
